@@ -182,6 +182,16 @@ Theorem C03_constructor_failure_meets_spec : forall fs i e,
   start fs i = Err e -> spec_ok fs i [] "INVOKE_" (Err e) = true.
 Proof. exact constructor_failure_meets_spec. Qed.
 
+(** ... and when the constructor raised on an unreadable system / user file,
+    the record of ANY script is accepted: no call ran, the specification reads
+    "a file that must be read cannot be" whatever the script says.  (Left out:
+    a constructor that raised AmbiguousMergeError followed by a script whose
+    first call would have replaced the clashing level -- [C03Corr.ops_run]
+    judges the first call of the script then; no object exists in reality.) *)
+Theorem C03_constructor_io_failure_any_script : forall fs i ops e,
+  exec fs (b0 i) (init_ops i) = Err e -> C03Corr.spec (model_case fs i ops) = true.
+Proof. exact constructor_io_failure_any_script. Qed.
+
 (** Pieces of the above that read well on their own: every clean prefix of a
     run is accepted on the snapshot taken after it; the call that raised is
     accepted with its exception. *)
